@@ -404,8 +404,9 @@ def shapes(depth):
         return leaf
     return st.one_of(
         leaf,
-        st.dictionaries(st.sampled_from(KEYS), shapes(depth - 1), min_size=1,
-                        max_size=3))
+        # below the top level a variable or store may itself be called 'time'
+        st.dictionaries(st.sampled_from(KEYS + ['time']), shapes(depth - 1),
+                        min_size=1, max_size=3))
 
 
 def values_for(tag):
